@@ -149,7 +149,27 @@ def _collect(case, dev, t, exc):
         elif ev[0] == "W":
             writes.append((n, ev[1]))
     return dict(outcome=_outcome(exc), writes=writes, tape=list(t.tape), wlog=list(dev.wlog), lines=list(dev.lines),
-                spans=list(dev.spans), accepted=dev.accepted, closed=dev.closed)
+                spans=list(dev.spans), accepted=dev.accepted, closed=dev.closed, cleaned=cleaned_chunks(t.tape))
+
+
+def cleaned_chunks(tape):
+    """what Channel.read() made of each raw chunk (None for an error): the real `_strip_ansi_read` replayed on a fresh object"""
+    from scrapli.channel.base_channel import BaseChannel
+    inst = object.__new__(BaseChannel)
+    inst._ansi_held = b""
+    out = []
+    for ev in tape:
+        if ev[0] != "c":
+            out.append(None)
+            continue
+        b = ev[1].replace(b"\r", b"")
+        out.append(inst._strip_ansi_read(buf=b) if hasattr(inst, "_strip_ansi_read") else (inst._strip_ansi(buf=b) if b"\x1b" in b else b))
+    return out
+
+
+def strip_ansi_text(txt: bytes) -> bytes:
+    from scrapli.channel.base_channel import ANSI_ESCAPE_PATTERN
+    return re.sub(ANSI_ESCAPE_PATTERN, b"", txt)
 
 
 def _logins(case):
@@ -287,7 +307,7 @@ def in_domain(case, pats):
     passwords that do not themselves look like prompts"""
     pp = pats["g" if (case.get("via") == "driver" and case.get("drvprompt") != "c") else "c"]
     for txt in banner_texts(case):
-        low = txt.replace(b"\r", b"").lower()
+        low = strip_ansi_text(txt.replace(b"\r", b"")).lower()
         for line in low.split(b"\n"):
             if any(pats[k].search(line) for k in "UPH"):
                 return False
@@ -300,7 +320,7 @@ def in_domain(case, pats):
     if d.get("passphrase") is not None:
         shown.append(d.get("phrase_prompt", PHRASE_PROMPTS[0]))
     for txt in shown:
-        low = B(txt).lower()
+        low = strip_ansi_text(B(txt)).lower()
         if any(pp.search(low[:i]) for i in range(1, len(low) + 1)):
             return False     # a prefix of a login prompt already looks like a shell prompt (e.g. `admin@` for GenericDriver): C02/F10
     u, p, h = creds(case)
@@ -449,14 +469,15 @@ def finding_match(case, res, pats):
 
 
 def kick_match(case, res):
-    """narrow predicate of F23: a read returned bytes (only carriage returns, which Channel.read removes) and the telnet
-    login loop answered that very read with a bare return"""
+    """narrow predicate of F23: a read returned bytes that Channel.read cleaned to nothing (only carriage returns, only a
+    complete escape sequence, or the held-back beginning of one) and the telnet login loop answered that very read with a
+    bare return"""
     if case["flavour"] != "telnet":
         return None
     n = 0
     for ev in res["tape"]:
         n += 1
-        if ev[0] == "c" and ev[1] and not ev[1].replace(b"\r", b""):
+        if ev[0] == "c" and ev[1] and res["cleaned"][n - 1] == b"":
             if [w for i, w in res["writes"] if i == n] == [b"\n"]:
                 return FID_KICK
     return None
@@ -554,6 +575,8 @@ def exhaustive_cases(tier):
         c["creds"]["password"] = "bad"
         shorts.append(c)
         shorts.append(base_case("telnet", stack, user_prompt="login: ", pass_prompt="Password: ", banner="Last login: Mon\n", shell_prompt="r1#"))
+        shorts.append(base_case("telnet", stack, user_prompt="\x1b[0mlogin: ", pass_prompt="Password: ", banner="\x1b[1;32mhi\x1b[0m\n",
+                                shell_prompt="\x1b[32mr1#\x1b[0m"))
         shorts.append(base_case("ssh", stack, pass_prompt="a@r1's password: ", banner="ok\n", shell_prompt="r1#"))
         c = base_case("ssh", stack, pass_prompt="Password:", pre="Warning: x\n")
         c["creds"]["password"] = "bad"
@@ -698,6 +721,20 @@ def gen_random(rng, stream):
             dev["banner"] = rng.choice(POST_CLEAN) + rng.choice(POST_PREFIXY) + rng.choice(["", "Welcome\n"])
     elif stream == "outdomain":
         dev["banner"] = rng.choice(POST_CLEAN) + rng.choice(OUT_OF_DOMAIN_BANNERS)
+    if rng.random() < 0.25:
+        # escape sequences as real devices send them: colours around prompts / in the MOTD, a reset before the first line
+        sgr = rng.choice(["\x1b[0m", "\x1b[1;32m", "\x1b[2J", "\x1b[K", "\x1b]0;r1\x07", "\x1b7"])
+        where = rng.choice(["pre", "banner", "shell", "uprompt", "pprompt"])
+        if where == "pre":
+            dev["pre"] = sgr + dev.get("pre", "")
+        elif where == "banner":
+            dev["banner"] = dev.get("banner", "") + sgr + "MOTD in colour" + "\x1b[0m\n"
+        elif where == "shell":
+            dev["shell_prompt"] = sgr + dev["shell_prompt"] + "\x1b[0m"
+        elif where == "uprompt" and flavour == "telnet":
+            dev["user_prompt"] = sgr + dev["user_prompt"]
+        else:
+            dev["pass_prompt"] = sgr + dev["pass_prompt"]
     if nl != "\n":
         for k in ("pre", "banner", "fatal"):
             if dev.get(k):
@@ -770,6 +807,36 @@ def pred_strings(tier, rng):
     return sorted(out)
 
 
+SYN_CRED = [r"^user:", r"^name:\s?$", r"^(.*pin:)\s?$", r"code:", r"(.*x.*)?token:\s?$", r"^(.*a:)|(b:)\s?$|^c:"]
+SYN_PROMPT = [r"^[a-z]{1,3}[#>]\s?$", r"^[a-z0-9]{0,2}[$]\s*$", r"^\S{1,4}[#]$", r"^[a-c]{2,2}[>]\s?$"]
+
+
+def synthetic_pattern_lines(tier):
+    """every pattern SHAPE the translator accepts (also the ones no default uses: `^` without `.*`, `\\s?` before `$` in a prompt
+    pattern), translated by the translator's own functions and compared with re.search: [(model request line, expected bit)]"""
+    import gen.c09 as G
+    fl = re.I | re.M
+    out = []
+    for src in SYN_CRED:
+        brs = G.cred_branches(src, fl)
+        rx = re.compile(src.encode(), fl)
+        toks = sorted({n for _, _, n, _ in brs} | {n.upper() for _, _, n, _ in brs}) + [b" ", b"\n", b"x", b"\t", b":", b"  "]
+        strs = {b"".join(t) for k in range(0, 4) for t in itertools.product(toks, repeat=k)}
+        for st in sorted(strs):
+            want = "1" if rx.search(st) else "0"
+            # the pattern matches iff one of its branches does: ask the model for each branch, OR them in python
+            out.append(([f"predb {int(b)}{int(d)}{int(t)} {hexs(n)} {hexs(st)}" for b, d, n, t in brs], want, src, st))
+    for src in SYN_PROMPT:
+        head, lo, hi, last, trail = G.prompt_pat(src, fl)
+        rx = re.compile(src.encode(), fl)
+        alpha = [b"a", b"B", b"c", b"1", b"#", b">", b"$", b" ", b"\n", b"\t"]
+        n = 5 if tier == "thorough" else 4
+        strs = {b"".join(t) for k in range(0, n + 1) for t in itertools.product(alpha, repeat=k)}
+        for st in sorted(strs):
+            out.append(([f"predp {hexs(head)} {lo} {hi} {hexs(last)} {trail} {hexs(st)}"], "1" if rx.search(st) else "0", src, st))
+    return out
+
+
 def real_pred_bits(pats, s):
     ch = pats["chan"]
     from scrapli.exceptions import ScrapliAuthenticationFailed
@@ -826,7 +893,8 @@ def run(tier, seed):
                   "harness/logindevice.py (causal login device = the environment assumption; scripted clock patched into scrapli.channel.*; "
                   "asyncio.sleep(0.1) of the async loops replaced by a bare yield)",
                   "the timeout decorator is bypassed (loops called through __wrapped__ or timeout 0): 'would run into the timeout' = SimStall"]
-    ck.assumptions = ["chunks contain no ESC byte (ANSI stripping in Channel.read is outside the model)",
+    ck.assumptions = ["Channel.read's cleaner is C01/C02's Lean model chanReadH (escape sequences incl. the hold-back across reads); the "
+                      "invariant theorems hold for every cleaner, the closed-system theorems for dialogues without escape sequences",
                       "device reacts only to written bytes and answers instantly; time passes only during empty reads",
                       "dialogues whose banner has a whole line matching a credential pattern, or a line prefix matching the shell prompt "
                       "pattern, are outside the property (advisory: model/code agreement only)",
@@ -860,7 +928,7 @@ def run(tier, seed):
         cases.append(c); streams.append("history")
     nrand = 1500 if tier == "quick" else 30000
     for i in range(nrand):
-        st = "clean" if i % 10 < 6 else ("prefixy" if i % 10 < 9 else "outdomain")
+        st = "clean" if i % 10 < 5 else ("prefixy" if i % 10 < 8 else "outdomain")
         cases.append(gen_random(ck.rng, st)); streams.append(st)
     # 4 real runs
     results = run_cases(cases, divisor)
@@ -868,6 +936,10 @@ def run(tier, seed):
     lines = [model_line(c, r) for c, r in zip(cases, results)]
     pstr = pred_strings(tier, ck.rng)
     lines += [f"pred {hexs(s)}" for s in pstr]
+    syn = synthetic_pattern_lines(tier)
+    syn_base = len(lines)
+    for reqs, _w, _src, _st in syn:
+        lines += reqs
     try:
         mout = run_model("C09", lines)
     except Exception as e:
@@ -912,12 +984,13 @@ def run(tier, seed):
             status, nread, mw = model_view(mout[idx], case)
             got = (res["outcome"], len(res["tape"]), res["writes"])
             if res["outcome"].startswith("other:") or (status, nread, mw) != got:
-                if indom:
-                    ck.disagree("Auth model vs real login loop", {"case": case},
-                                f"impl={got[0]} reads={got[1]} writes={[(n, S(w)) for n, w in got[2]]} model={mout[idx]}")
-                else:
+                # model fidelity is claimed for EVERY tape (the open theorems quantify over all of them): a disagreement is
+                # hard whether or not the dialogue is inside the oracle's domain
+                ck.disagree("Auth model vs real login loop" + ("" if indom else " (dialogue outside the oracle's domain)"), {"case": case},
+                            f"impl={got[0]} reads={got[1]} writes={[(n, S(w)) for n, w in got[2]]} model={mout[idx]}")
+                if not indom:
                     adv_dis += 1
-            elif indom:
+            else:
                 ck.traces_validated += 1
     # dispatch facts observed through driver.open(): bypass => nothing written, nothing read
     for case, res in zip(cases, results):
@@ -933,13 +1006,24 @@ def run(tier, seed):
                 bad += 1
                 ck.disagree("hand-modelled patterns vs re.search / _ssh_message_handler", {"string": hexs(s)},
                             f"re={rb} model={mout[base + i]} (username password passphrase chanPrompt genericPrompt fatal driver-username driver-password driver-passphrase)")
+        # synthetic patterns of every accepted shape
+        pos, sbad = syn_base, 0
+        for reqs, want, src, st in syn:
+            got = "1" if any(mout[pos + i] == "1" for i in range(len(reqs))) else "0"
+            pos += len(reqs)
+            if got != want:
+                sbad += 1
+                ck.disagree("translated pattern shape vs re.search (synthetic patterns)", {"pattern": src, "string": hexs(st)},
+                            f"re={want} model={got}")
+        ck.extra["synthetic_pattern_strings_checked"] = len(syn)
+        ck.traces_validated += len(syn) - sbad
         ck.extra["pattern_strings_checked"] = len(pstr)
         ck.traces_validated += len(pstr) - bad
     ck.extra["advisory_out_of_domain_cases"] = adv
     ck.extra["advisory_out_of_domain_disagreements"] = adv_dis
     ck.extra["advisory_outcomes"] = outcomes
     ck.exhaustive = True
-    ck.extra["exhaustive_scope"] = "18 short dialogues x (whole, 1-byte reads, every single cut, every double cut of the output stream)"
+    ck.extra["exhaustive_scope"] = "20 short dialogues x (whole, 1-byte reads, every single cut, every double cut of the output stream)"
     return ck.finish()
 
 
